@@ -85,6 +85,24 @@ def structural_paths(root, trees):
     return {own_path(t) for t in trees}
 
 
+def nested_formula(rng, nts):
+    """quantifiers whose body is evaluated several times on the same tree under different bindings of the outer variable
+    (memo keys must contain scopes AND local variables)"""
+    leafy = [n for n in nts if n in ("<ch>", "<d>", "<w>", "<val>", "<key>", "<t>", "<len>", "<x>", "<n>")] or nts
+    s1, s2 = rng.choice(leafy), rng.choice(leafy)
+    q1, q2 = rng.choice(["any", "all"]), rng.choice(["any", "any", "all"])
+    cmp_ = rng.choice(["==", "!=", "<", ">"])
+    k = rng.randrange(4)
+    if k == 0:      # both variables bound as Python identifiers
+        return f"{q1}({q2}(str(y) {cmp_} str(x) for y in *{s1}) for x in *{s2})"
+    if k == 1:      # outer identifier, inner nonterminal-bound
+        return f"{q1}({q2}(str(<y>) {cmp_} str(x) for <y> in *{s1}) for x in *{s2})"
+    if k == 2:      # outer nonterminal-bound, inner identifier
+        return f"{q1}({q2}(str(y) {cmp_} str(<x>) for y in *{s1}) for <x> in *{s2})"
+    # three levels
+    return f"{q1}({q2}(any(str(z) == str(x) for z in *{s1}) and str(y) {cmp_} str(x) for y in *{s1}) for x in *{s2})"
+
+
 def run_worker(args):
     seed, n_runs = args
     import sys
@@ -97,6 +115,8 @@ def run_worker(args):
     viols = []
     for i in range(n_runs):
         spec, nts, judge, texts = c02.make_spec(rng)
+        if rng.random() < 0.5:
+            texts = texts + [nested_formula(rng, nts)]
         full = spec + "".join(f"where {t}\n" for t in texts)
         try:
             fan = Fandango(full)
